@@ -381,6 +381,10 @@ func (mapSetSelf *MapSetDef[T, R]) Get(key T) R {
 
 // Set Set items to the Set
 func (mapSetSelf *MapSetDef[T, R]) Set(key T, value R) {
+	if *mapSetSelf == nil {
+		// a Set over a nil map (e.g. the empty result of Intersection) is still writable
+		*mapSetSelf = MapSetDef[T, R]{}
+	}
 	(*mapSetSelf)[key] = value
 
 	// return mapSetSelf
